@@ -787,6 +787,11 @@ class Fxp():
         if val.dtype == object and any(isinstance(v, np.integer) for v in val.flatten()):
             val = np.array([int(v) if isinstance(v, np.integer) else v for v in val.flatten()], dtype=object).reshape(val.shape)
 
+        # decimal.Decimal elements of a list or array are the exact rationals they denote (rounded by the configured rule like a
+        # scalar Decimal; as Decimals they passed the rounding step untouched and were cut toward zero at the end)
+        if val.dtype == object and Decimal is not type(None) and any(isinstance(v, Decimal) for v in val.flatten()):
+            val = np.array([Fraction(v) if isinstance(v, Decimal) else v for v in val.flatten()], dtype=object).reshape(val.shape)
+
         # narrow NumPy types (also as elements of a list or tuple) are widened: scaling, bias removal and size estimation
         # must not wrap or round in the width of the input type
         if val.dtype.kind in 'iu' and val.dtype.itemsize < 8:
